@@ -1,0 +1,14 @@
+//go:build verif
+
+package wal
+
+import (
+	"github.com/alphadose/haxmap"
+	"github.com/projecteru2/core/wal/kv"
+)
+
+// VerifNewHydro builds a Hydro on top of a caller-supplied KV (the verification harness wraps a
+// real Lithium to observe and schedule the individual KV calls).
+func VerifNewHydro(store kv.KV) *Hydro {
+	return &Hydro{Map: haxmap.New[string, EventHandler](), store: store}
+}
